@@ -9,8 +9,26 @@ from concurrent.futures import ProcessPoolExecutor
 import multiprocessing as mp
 
 
-def _init():
+def _watch_parent():
+    """workers must not outlive a killed check run"""
+    import threading
+    import time
+
+    parent = os.getppid()
+
+    def loop():
+        while True:
+            time.sleep(2.0)
+            if os.getppid() != parent:
+                os._exit(3)
+
+    threading.Thread(target=loop, daemon=True).start()
+
+
+def _init(worker=False):
     os.environ.setdefault("OMP_NUM_THREADS", "1")
+    if worker:
+        _watch_parent()
     import warnings
 
     warnings.filterwarnings("ignore")
@@ -61,6 +79,6 @@ def _executor(jobs):
         import atexit
 
         ctx = mp.get_context("spawn")
-        _EX = ProcessPoolExecutor(max_workers=jobs, mp_context=ctx, initializer=_init)
+        _EX = ProcessPoolExecutor(max_workers=jobs, mp_context=ctx, initializer=_init, initargs=(True,))
         atexit.register(lambda: _EX.shutdown(wait=False, cancel_futures=True))
     return _EX
